@@ -255,6 +255,17 @@ partial def runOp (hin hout : IO.FS.Stream) (j : Json) : IO Json := do
   | "decode_cose" => do
     let b ← liftP (bytesField j "b")
     pure (outcomeToJson coseKeyToJson (decodeCose b))
+  | "encode_cose" => do
+    let kind ← liftP (strField j "kind")
+    let alg ← liftP (intField j "alg")
+    let a ← liftP (bytesField j "a")
+    let b ← liftP (bytesField j "b")
+    let crv ← liftP (intField j "crv")
+    let out := match kind with
+      | "ec2" => encodeEc2 alg crv.toNat a b
+      | "rsa" => encodeRsa alg a b
+      | _ => encodeOkp a
+    pure (Json.mkObj [("k", "accept"), ("record", Json.str (hexStr out))])
   | "cose_to_pubkey" => do
     let b ← liftP (bytesField j "b")
     let r ← runMIO hin hout (do let k ← liftE (decodeCose b); loadCoseKey k)
